@@ -40,6 +40,9 @@ TRUSTED = [
 ]
 ASSUMPTIONS = [
     "type equality used when unions drop duplicates is structural (Python compares nested unions as sets: not generated)",
+    "typing's subscription caches are emptied before each generated module / evaluated expression (CPython files "
+    "Optional[Union[str, int]] under a key that compares unions as sets, so an earlier Optional[Union[int, str]] in the "
+    "same process would otherwise come back; one member order per member set is generated)",
     "atoms are class names without delimiter characters; strings given to the rewriter are ASCII",
     "on Python >= 3.10 the textual rewriter is reached through evaluate_string_annotation (serialization) and as the "
     "fallback of get_field_type_from_annotations only; the parse path normalises runtime objects instead",
@@ -609,12 +612,19 @@ def _digest(o):
     return hashlib.sha1(json.dumps(o, sort_keys=True, default=str).encode()).hexdigest()[:10]
 
 
+def _word(msg):
+    """first identifier-like word of an exception message (NotImplementedError(Ellipsis) -> 'Ellipsis')"""
+    import re
+    m = re.match(r"[^A-Za-z]*([A-Za-z_]+)", str(msg))
+    return m.group(1) if m else ""
+
+
 def _short(o):
     if o[0] == "ok":
         return "ok"
     if o[0] == "exit":
         return f"exit{o[1]}"
-    return o[0] + ":" + str(o[1])
+    return o[0] + ":" + str(o[1]) + (f"({_word(o[2])})" if len(o) > 2 else "")
 
 
 def _observer(case):
@@ -639,7 +649,7 @@ def _observer(case):
 
         reset_simple_parsing_state()
         r = outcome_of(setup)
-        types_ = r[:2]
+        types_ = r[:2] if r[0] != "raise" else [r[0], r[1], _word(r[2])]
         outs = []
         for argv in case["argvs"]:
             reset_simple_parsing_state()
@@ -652,7 +662,7 @@ def _observer(case):
                 return canon(p.parse_args(argv).cfg)
 
             o = outcome_of(go)
-            outs.append(o[:2])
+            outs.append(o[:3] if o[0] == "raise" else o[:2])
         return types_, outs
 
     return observe
@@ -716,7 +726,7 @@ def _run_tree(case, mods):
             types_, outs = ["raise", "import:" + str(r[1])], [["raise", "import:" + str(r[1])] for _ in case["argvs"]]
         sys.modules.pop(holder.get("name", ""), None)
         out.append(dict(style=style, layout=layout, scope=scope, types=types_, outs=[_short(o) for o in outs],
-                        digest=[_digest(o) for o in outs]))
+                        digest=[_digest(o[:2]) for o in outs]))
     return dict(rends=out)
 
 
@@ -900,7 +910,8 @@ def _deviating(case, obs):
     for r in obs["rends"]:
         if r["types"] != want:
             dev.add(eff(r))
-            what = what or ("setup:" + (str(r["types"][1]) if r["types"][0] != "ok" else "types"))
+            what = what or ("setup:" + (f"{r['types'][1]}({r['types'][2] if len(r['types']) > 2 else ''})"
+                                        if r["types"][0] != "ok" else "types"))
     if what is None:
         for r in obs["rends"][1:]:
             for a, b, da, db in zip(ref["outs"], r["outs"], ref["digest"], r["digest"]):
@@ -913,7 +924,9 @@ def _deviating(case, obs):
 def signature(case, obs, reason):
     k = case["kind"]
     if k == "norm":
-        return "norm:" + (str(obs["norm"][1]) if obs["norm"][0] != "ok" else "meaning")
+        text = obs.get("s", "")
+        feat = "ellipsis" if "..." in text else "+".join(sorted({h.lower() for h in HEADS if h + "[" in text})) or "plain"
+        return "norm:" + (str(obs["norm"][1]) if obs["norm"][0] != "ok" else "meaning") + ":" + feat
     if k == "rw":
         if obs["rw"][0] != "ok":
             return "rewriter:" + str(obs["rw"][1])
